@@ -528,9 +528,19 @@ impl<const N: usize> FInt<N> {
             z[half + n] = carrymid - (carrylo + carryhi);
             // Combine result
             let carry1 = _add_slices(&mut z[0..n], blo);
-            debug_assert!(bhi[0] != !0);
-            bhi[0] += carry1; // cannot overflow
-            let carry2 = _add_slices(&mut z[n..], bhi);
+            let mut carry2 = _add_slices(&mut z[n..], bhi);
+            if carry1 == 1 {
+                // Propagate the carry of the low half (bhi[0] can be !0:
+                // it cannot simply be added to bhi[0]).
+                let mut c = true;
+                for zi in z[n..].iter_mut() {
+                    (*zi, c) = zi.overflowing_add(1);
+                    if !c {
+                        break;
+                    }
+                }
+                carry2 += u64::from(c);
+            }
             // cannot overflow
             debug_assert!(carry2 == 0);
         }
